@@ -32,6 +32,8 @@ def _sym_of(e):
         return ("len",) + _root(e[1])
     if e[0] == "call" and not re.search(r"^(std|core|alloc)::", e[1]):
         return ("ret", e[1])
+    if e[0] == "field" and e[1][0] in ("arg", "field"):
+        return ("fld", e[2])
     raise NotLinear(show(e)[:80])
 
 
@@ -198,5 +200,43 @@ def lenfield_rules(ctx, facts, rep, rule="C02-LENFIELD"):
                              "on each of %d success paths the bytes written equal the returned count%s" % (len(res), (" + %d" % cst) if cst else ""),
                              "%s reports %s but writes %s bytes on some path -- the caller copies buf[..returned%s] into the record" % (
                                  callee, sorted({n for n, _ in res}, key=str), sorted({wr for _, wr in res}, key=str), (" + %d" % cst) if cst else "")))
-    rep.floor(rule, 3)
+    # ---- local file header (APPNOTE 4.3.7): the name length field is the name run; the extra length field announces the entry's
+    # extra data (empty when the header is first written -- C01-ENTRYFIELDS -- and patched by the extra-data API) plus the ZIP64
+    # placeholder record, which must then really follow the name on exactly the paths that announce it
+    wl = facts.one(r"^write::write_local_file_header$")
+    seqs = c.sequences(wl)
+    wloc = where(wl, wl.span)
+    blocks, consts, lbad = set(), set(), {}
+    for s_ in seqs:
+        ev = [e for e in s_ if e["stream"] == "writer"]
+        own = [e for e in ev if e["fn"] == wl.path]
+        fixed = [e for e in own if e["kind"] == "w"]
+        runs = [e for e in own if e["kind"] == "wa"]
+        if [e["width"] for e in fixed] != [4, 2, 2, 2, 2, 2, 4, 4, 4, 2, 2]:
+            lbad.setdefault("shape", "a success path does not write the 11 fixed fields of APPNOTE 4.3.7")
+            continue
+        try:
+            f_name = _norm(lin(fixed[9]["expr"]))
+            rl = [_norm(run_len(e["expr"])) for e in runs]
+        except NotLinear as e_:
+            lbad.setdefault("form", "name length is not a length: %s" % e_)
+            continue
+        if len(rl) != 1 or rl[0] != f_name or ("len", "field", "file_name") not in f_name:
+            lbad.setdefault("name", "file name length field = %s but the runs written are %s" % (_fmt(f_name), [_fmt(r_) for r_ in rl]))
+            continue
+        blocks.add(sum(e["width"] or 0 for e in ev if e["fn"] != wl.path and e["kind"] == "w"))
+        from engine.expr import walk as _walk
+        fx = fixed[10]["expr"]
+        consts |= {x_[2] for y_ in _walk(fx) if y_[0] == "phi" for x_ in y_[1] if x_[0] == "const" and isinstance(x_[2], int)}
+        if not any(y_[0] == "call" and re.search(r"::len$", y_[1]) and y_[2] and y_[2][0][0] == "field" and y_[2][0][2] == "extra_field" for y_ in _walk(fx)):
+            lbad.setdefault("extra-term", "the extra length field does not count the entry's extra data")
+    if not lbad and blocks != (consts or {0}):
+        lbad["zip64-block"] = "the extra length field announces a ZIP64 record of %s bytes, the paths write %s bytes behind the name" % (sorted(consts), sorted(blocks))
+    for k_, msg in sorted(lbad.items()):
+        ok = False
+        rep.check(False, rule, "local:" + k_, wloc, "", "local header: %s" % msg)
+    if not lbad:
+        rep.check(True, rule, "local:name", wloc, "name length field == bytes of the name run", "")
+        rep.check(True, rule, "local:zip64-block", wloc, "announced placeholder sizes %s == bytes written behind the name %s" % (sorted(consts), sorted(blocks)), "")
+    rep.floor(rule, 5)
     return ok
